@@ -34,7 +34,13 @@ func alphabet() []Ev {
 			}
 		}
 	}
-	evs = append(evs, Ev{Op: A(skew / 2)}, Ev{Op: A(skew + 1)}, Ev{Cleanup: true})
+	// a client time with microseconds late in the window, presented again in its last sub-second; the same
+	// instant held in a freshly allocated zone
+	sub := skew - 300*time.Millisecond + 123*time.Microsecond
+	zoned := P("A", 0, "S1")
+	zoned.Zone = true
+	evs = append(evs, Ev{Op: P("A", sub, "S1")}, Ev{Op: zoned})
+	evs = append(evs, Ev{Op: A(skew / 2)}, Ev{Op: A(skew + 1)}, Ev{Op: A(2*skew - 500*time.Millisecond)}, Ev{Cleanup: true})
 	return evs
 }
 
